@@ -228,6 +228,61 @@ func checkC18(c *Ctx) *report.Result {
 		}
 	}
 
+	// ---- M-own: what a register reads back is stored only by that register's own write and by power-off
+	r.Rule("M-own", "the cells a register NR10..NR51 reads back are stored only under that register's own write handler or the NR52 write handler, over every run-phase entry: no trigger, sweep, envelope, length or per-cycle step rewrites them (read-back holds over any history, not only right after the write)")
+	{
+		readers := map[string][]int{}         // cell -> registers whose read depends on it
+		handlers := map[int]map[string]bool{} // register -> its write handler(s)
+		collect := func(addr int) {
+			hs := map[string]bool{}
+			for _, f := range c.evalDecoder(true, addr, addr, nil, nil).Direct {
+				hs[fnName(f)] = true
+			}
+			handlers[addr] = hs
+		}
+		for _, reg := range oracle.SoundRegs() {
+			rd := c.evalDecoder(false, reg.Addr, reg.Addr, nil, nil)
+			for cell := range c.footprintOf(rd).cells {
+				if cell == c.cellLabel(pk) {
+					continue // the power flag belongs to NR52
+				}
+				readers[cell] = append(readers[cell], reg.Addr)
+			}
+			collect(reg.Addr)
+		}
+		collect(0xFF26)
+		viol := map[string]string{}
+		n := 0
+		c.evalAllEntries(ai.Hooks{
+			Store: func(_ *ai.State, at ssa.Instruction, p *ai.Ptr, keys []ai.CellKey, _ ai.Value, _ bool) {
+				for _, k := range keys {
+					lbl, _ := arrayLabel(c.cellLabel(ai.CellKey{Obj: k.Obj, Path: ai.NormPath(k.Path)}))
+					regs := readers[lbl]
+					if len(regs) == 0 {
+						continue
+					}
+					n++
+					ok := c.onStack(handlers[0xFF26])
+					for _, a := range regs {
+						ok = ok || c.onStack(handlers[a])
+					}
+					if !ok {
+						var names []string
+						for _, a := range regs {
+							names = append(names, fmt.Sprintf("%04X", a))
+						}
+						viol[fmt.Sprintf("%s (read back by %s) stored by %s", lbl, strings.Join(names, ","), fnName(outerFn(at.Parent())))] = c.pos(at)
+					}
+				}
+			},
+		}, func(*world.Entry, *ai.State) {})
+		for k, pos := range viol {
+			r.Ob("M-own", false, k, pos, "a register's read-back state is rewritten outside its own write: the register no longer reads the last written value")
+		}
+		r.Ob("M-own", n > 0, "stores to register read-back cells examined over every run-phase entry", "", fmt.Sprintf("%d stores, %d cells", n, len(readers)))
+		r.Instances["M-own"] += n
+	}
+
 	// ---- M-wave: plain memory while channel 3 is off
 	probe := c.evalDecoder(false, 0xFF30, 0xFF3F, nil, nil)
 	var ch3 []ai.CellKey
@@ -281,6 +336,51 @@ func checkC18(c *Ctx) *report.Result {
 			detail += fmt.Sprintf("; written byte stored there: %v", stored)
 		}
 		r.Ob("M-wave", ok, "wave RAM "+kind+" with channel 3 off", handlerPos(ev), detail)
+	}
+	// "off" is what NR52 reports: for every valuation of the flags NR52 and the wave RAM read consult in which
+	// NR52 bit 2 reads 0, the wave RAM read returns the stored byte itself (no redirection to the play position)
+	{
+		nr52 := c.evalDecoder(false, 0xFF26, 0xFF26, nil, nil)
+		cells := append([]ai.CellKey{}, ch3...)
+		for _, k := range c.boolCellsLoaded(nr52) {
+			dup := false
+			for _, o := range cells {
+				dup = dup || o == k
+			}
+			if !dup {
+				cells = append(cells, k)
+			}
+		}
+		if len(cells) > 8 {
+			r.Fail("unresolved", "M-wave", "flags consulted by NR52 and the wave RAM read", "", fmt.Sprintf("%d cells", len(cells)))
+			return r
+		}
+		var bad []string
+		n0 := 0
+		for v := 0; v < 1<<uint(len(cells)); v++ {
+			setup := func(st *ai.State) {
+				for i, k := range cells {
+					st.SetCell(it.ObjectByIDFast(k.Obj), k.Path, ai.NewConstBool(v>>uint(i)&1 == 1))
+				}
+			}
+			st52 := c.evalDecoder(false, 0xFF26, 0xFF26, setup, nil)
+			iv, _ := st52.Result.(*ai.Int)
+			if iv == nil || iv.Bits[2].K != ai.BZero {
+				continue
+			}
+			n0++
+			same, n, got := c.readReturnsLoadedByte(0xFF30, 0xFF3F, setup)
+			if !same || n != 1 {
+				var names []string
+				for i, k := range cells {
+					names = append(names, fmt.Sprintf("%s=%v", c.cellLabel(k), v>>uint(i)&1 == 1))
+				}
+				if len(bad) < 3 {
+					bad = append(bad, fmt.Sprintf("with %s NR52 bit 2 reads 0 but a wave RAM read returns %s (element loads %d)", strings.Join(names, ", "), got, n))
+				}
+			}
+		}
+		r.Ob("M-wave", len(bad) == 0 && n0 > 0, "wave RAM read returns the stored byte whenever NR52 reports channel 3 off", handlerPos(probe), fmt.Sprintf("%d flag valuations with NR52 bit 2 = 0 examined; %s", n0, strings.Join(bad, "; ")))
 	}
 	return r
 }
